@@ -77,7 +77,7 @@ RhsLang(rhs, i, p, M, N) ==
     ELSE LET rest == RhsLang(rhs, i + 1, p, M, N)
              here == IF rhs[i].k = "t" THEN {<<rhs[i].t>>}
                      ELSE LET inst == InstOf(rhs[i], p) IN IF inst \in DOMAIN M THEN M[inst] ELSE {}
-         IN  {a \o b : a \in here, b \in rest} \cap {w \in {a \o b : a \in here, b \in rest} : Len(w) <= N}
+         IN  UNION {{a \o b : b \in {x \in rest : Len(x) <= N - Len(a)}} : a \in {y \in here : Len(y) <= N}}
 
 ActiveRules(G, inst) == {i \in RulesOf(G, inst[1]) : EvalCond(G.rules[i].cond, inst[2])}
 
